@@ -20,24 +20,29 @@ use serde_json::{json, Value};
 use super::c13::RefCp;
 use crate::engine::{digits, finish, guarded, par_range, product, run_witnesses, Acc, Run, Summary, Tier, Violation};
 
-const TIMES: [i64; 4] = [0, 1000, 2000, 3000];
+/// stands for the time text "-0" (numerically equal to 0, ordered before it by total_cmp)
+const NEG_ZERO: i64 = i64::MIN;
+const TIMES: [i64; 5] = [0, 1000, 2000, 3000, NEG_ZERO];
 
 /// object line `kind` at time `t` (shifted by `d`), carrying a distinguishing x
 fn object_line(kind: usize, slot: usize, t: i64, d: i64) -> String {
     let x = 16 + 40 * kind + 3 * slot;
     let y = 100 + 7 * slot;
-    let t = t + d;
+    let neg_zero = t == NEG_ZERO && d == 0;
+    let t = if t == NEG_ZERO { d } else { t + d };
+    let tt = if neg_zero { "-0".to_string() } else { t.to_string() };
+    let t_text = tt.as_str();
     match kind {
-        0 => format!("{x},{y},{t},1,0"),
-        1 => format!("{x},{y},{t},5,2,1:2:0:0:"),
-        2 => format!("{x},{y},{t},1,8,0:0:3:40:"),
-        3 => format!("{x},{y},{t},2,0,L|{}:{y},1,70", x + 70),
-        4 => format!("{x},{y},{t},2,2,B|{}:{}|{}:{y},2,140,2|0|4,0:0|1:2|0:0", x + 60, y + 60, x + 120),
-        5 => format!("256,192,{t},8,0,{}", t + 600),
-        6 => format!("{x},192,{t},128,0,{}:0:0:0:0:", t + 400),
-        7 => format!("{x},{y},{t},1,0,0:0:0:0:f.wav"),
+        0 => format!("{x},{y},{t_text},1,0"),
+        1 => format!("{x},{y},{t_text},5,2,1:2:0:0:"),
+        2 => format!("{x},{y},{t_text},1,8,0:0:3:40:"),
+        3 => format!("{x},{y},{t_text},2,0,L|{}:{y},1,70", x + 70),
+        4 => format!("{x},{y},{t_text},2,2,B|{}:{}|{}:{y},2,140,2|0|4,0:0|1:2|0:0", x + 60, y + 60, x + 120),
+        5 => format!("256,192,{t_text},8,0,{}", t + 600),
+        6 => format!("{x},192,{t_text},128,0,{}:0:0:0:0:", t + 400),
+        7 => format!("{x},{y},{t_text},1,0,0:0:0:0:f.wav"),
         // custom index given, volume left to the sample point
-        _ => format!("{x},{y},{t},1,4,0:0:2:0:"),
+        _ => format!("{x},{y},{t_text},1,4,0:0:2:0:"),
     }
 }
 
